@@ -30,8 +30,58 @@ def crow(r):
     return clist(r, lambda e: f"({cn(e[0])}, {cq(e[1])})")
 
 
+def mixed_grid(nx, ny, split, pert=None):
+    """2-D grid mixing cell types, built with the public pp.Grid constructor: an nx x ny lattice
+    of unit quadrilaterals where split[c] = 0 keeps the quadrilateral, 1 / 2 cuts it into two
+    triangles along one of its diagonals.  Cells are counter-clockwise node loops; a face keeps the
+    direction of the first loop that runs through it (sign +1 there, -1 for the neighbour)."""
+    import scipy.sparse as _sps
+    nn = (nx + 1) * (ny + 1)
+    X = np.zeros((3, nn))
+    for j in range(ny + 1):
+        for i in range(nx + 1):
+            X[0, j * (nx + 1) + i] = i
+            X[1, j * (nx + 1) + i] = j
+    if pert:
+        X[:2] += np.array(pert, dtype=float) / 32.0
+    cells = []
+    for j in range(ny):
+        for i in range(nx):
+            n00 = j * (nx + 1) + i
+            n10, n01 = n00 + 1, n00 + nx + 1
+            n11 = n01 + 1
+            s = split[j * nx + i]
+            if s == 0:
+                cells.append([n00, n10, n11, n01])
+            elif s == 1:
+                cells += [[n00, n10, n11], [n00, n11, n01]]
+            else:
+                cells += [[n00, n10, n01], [n10, n11, n01]]
+    faces, fn, trip = {}, [], []
+    for c, loop in enumerate(cells):
+        for a, b in zip(loop, loop[1:] + loop[:1]):
+            key = (min(a, b), max(a, b))
+            if key not in faces:
+                faces[key] = len(fn)
+                fn.append((a, b))
+                trip.append((faces[key], c, 1))
+            else:
+                f = faces[key]
+                trip.append((f, c, 1 if fn[f] == (a, b) else -1))
+    nf = len(fn)
+    face_nodes = _sps.csc_matrix((np.ones(2 * nf, dtype=int), np.array(fn).ravel(), 2 * np.arange(nf + 1)),
+                                 shape=(nn, nf))
+    t = np.array(trip)
+    cell_faces = _sps.csc_matrix((t[:, 2], (t[:, 0], t[:, 1])), shape=(nf, len(cells)))
+    return pp.Grid(2, X, face_nodes, cell_faces, "MixedTriQuad")
+
+
 def make_grid(spec):
     kind = spec["kind"]
+    if kind == "mixed":
+        g = mixed_grid(spec["n"][0], spec["n"][1], spec["split"], spec.get("pert"))
+        g.compute_geometry()
+        return g
     n = np.array(spec["n"])
     if kind == "cart":
         g = pp.CartGrid(n)
@@ -49,11 +99,19 @@ def make_grid(spec):
     return g
 
 
-def grid_spec(rng, tier):
+def grid_spec(rng, tier, force_mixed=False):
     big = tier != "quick"
     r = rng.random()
-    if r < 0.35:
+    if force_mixed:
+        r = 0.3
+    if r < 0.25:
         spec = {"kind": "cart", "n": [rng.randint(1, 3), rng.randint(1, 3)]}
+    elif r < 0.45:
+        # triangles and quadrilaterals in one grid (public pp.Grid constructor)
+        nx, ny = rng.choice([[2, 1], [1, 2], [2, 2], [3, 1], [3, 2]])
+        split = [rng.choice([0, 1, 2]) for _ in range(nx * ny)]
+        split[0], split[-1] = 0, rng.choice([1, 2])       # at least one of each type
+        spec = {"kind": "mixed", "n": [nx, ny], "split": split}
     elif r < 0.7:
         spec = {"kind": "tri", "n": [rng.randint(1, 3), rng.randint(1, 2)]}
     elif r < 0.87:
@@ -126,7 +184,9 @@ class C15(Prop):
     technique = ("Coq proof of method-level theorems (linearity over Q, divergence-theorem identity by "
                  "induction + ring) + certificate checkers evaluated by vm_compute on the real Biot "
                  "matrices and geometry + numpy oracle")
-    rule = ("grids: CartGrid 2-D (<=3x3) and 3-D (<=2x2x2), StructuredTriangleGrid, "
+    rule = ("grids: CartGrid 2-D (<=3x3) and 3-D (<=2x2x2), grids MIXING triangles and quadrilaterals "
+            "(public pp.Grid constructor), discretised in 1, 2 or 3 subproblems (partition_arguments), "
+            "StructuredTriangleGrid, "
             "StructuredTetrahedralGrid, 55% with every node moved by a dyadic offset; Lame parameters "
             "and alpha (scalar, or a symmetric tensor in half of the cases) from dyadic sets; all-Dirichlet displacement boundary; linear field with small "
             "integer A, b; constant pressure; non-trivial = at least 2 cells and tr(A) != 0")
@@ -144,8 +204,10 @@ class C15(Prop):
         mus = [0.5, 1.0, 1.5, 2.0]
         lams = [0.5, 1.0, 2.0, 0.25]
         alphas = [1.0, 0.5, 0.75, 2.0, 0.25]
-        for _ in range(n):
-            spec = grid_spec(rng, tier)
+        for idx in range(n):
+            # directed streams: every 4th case mixes cell types, every 2nd one is discretised in
+            # several subproblems
+            spec = grid_spec(rng, tier, force_mixed=(idx % 4 == 0))
             nd = len(spec["n"])
             A = [[rng.randint(-3, 3) for _ in range(nd)] for _ in range(nd)]
             if rng.random() < 0.15:
@@ -158,6 +220,7 @@ class C15(Prop):
                          rng.choice([0.0, 0.125, -0.25]) if nd == 3 else 0.0,
                          rng.choice([0.0, -0.125, 0.25]) if nd == 3 else 0.0]
             yield {"grid": spec, "mu": rng.choice(mus), "lam": rng.choice(lams),
+                   "nsub": rng.choice([2, 3]) if idx % 2 == 1 else rng.choice([1, 1, 2]),
                    "alpha": alpha, "A": A, "b": [rng.randint(-3, 3) for _ in range(nd)],
                    "p": rng.randint(-8, 8) / 2.0}
 
@@ -175,8 +238,11 @@ class C15(Prop):
         else:
             alpha = float(case["alpha"])
             amat = alpha * np.eye(3)
-        data = pp.initialize_data(g, {}, KW, {"fourth_order_tensor": C, "bc": bc,
-                                              "scalar_vector_mappings": {FLOW: alpha}})
+        params = {"fourth_order_tensor": C, "bc": bc, "scalar_vector_mappings": {FLOW: alpha}}
+        if case.get("nsub", 1) > 1:
+            # split the discretisation into several subproblems (glued by Biot.discretize)
+            params["partition_arguments"] = {"num_subproblems": int(min(case["nsub"], nc))}
+        data = pp.initialize_data(g, {}, KW, params)
         discr = pp.Biot(KW)
         discr.discretize(g, data)
         m = data[pp.DISCRETIZATION_MATRICES][KW]
@@ -272,6 +338,7 @@ class C15(Prop):
     def nontrivial(self, case, res):
         self._stats["dims"][str(res["nd"])] = self._stats["dims"].get(str(res["nd"]), 0) + 1
         k = case["grid"]["kind"] + ("+pert" if case["grid"].get("pert") else "")
+        self._stats["multi_subproblem"] = self._stats.get("multi_subproblem", 0) + int(case.get("nsub", 1) > 1)
         self._stats["alpha_tensor"] = self._stats.get("alpha_tensor", 0) + int(isinstance(case["alpha"], list))
         self._stats["nonplanar_geometry_skipped"] = (self._stats.get("nonplanar_geometry_skipped", 0)
                                                      + int(not self._full(case)["planar"]))
